@@ -118,41 +118,40 @@ fn acct_history(rng: &mut Rng, h: usize) {
     println!("{{\"k\":\"acct\",\"h\":{h},\"lim\":{lim},\"ops\":[{}],\"outs\":[{}],\"ok\":{ok},\"why\":{}}}", ops.join(","), outs.join(","), h_util::json_str(&why));
 }
 
-fn make_batch(rng: &mut Rng, schema: &SchemaRef, rows: usize) -> RecordBatch {
-    let mut cols: Vec<ArrayRef> = vec![];
-    for f in schema.fields() {
-        let nullat = |rng: &mut Rng| rng.chance(1, 6);
-        let a: ArrayRef = match f.data_type() {
-            DataType::Int32 => Arc::new((0..rows).map(|_| if nullat(rng) { None } else { Some(rng.range(-1000, 1000) as i32) }).collect::<Int32Array>()),
-            DataType::Float64 => Arc::new((0..rows).map(|_| if nullat(rng) { None } else { Some(rng.range(-1000, 1000) as f64 * 0.25) }).collect::<Float64Array>()),
-            DataType::Boolean => Arc::new((0..rows).map(|_| if nullat(rng) { None } else { Some(rng.chance(1, 2)) }).collect::<BooleanArray>()),
-            DataType::Utf8 => Arc::new((0..rows).map(|_| if nullat(rng) { None } else { Some(format!("s{}", rng.below(50))) }).collect::<StringArray>()),
-            DataType::Utf8View => Arc::new((0..rows).map(|_| if nullat(rng) { None } else if rng.chance(1, 2) { Some(format!("v{}", rng.below(9))) } else { Some(format!("a-long-string-view-value-{}", rng.below(1000))) }).collect::<StringViewArray>()),
-            DataType::BinaryView => Arc::new((0..rows).map(|_| if nullat(rng) { None } else { Some(vec![rng.below(256) as u8; rng.below(30) as usize]) }).collect::<BinaryViewArray>()),
-            DataType::Dictionary(_, _) => {
-                let s: ArrayRef = Arc::new((0..rows).map(|_| if nullat(rng) { None } else { Some(format!("d{}", rng.below(4))) }).collect::<StringArray>());
-                arrow::compute::cast(&s, f.data_type()).unwrap()
-            }
-            DataType::List(_) => {
-                let mut b = ListBuilder::new(Int32Builder::new());
-                for _ in 0..rows {
-                    if nullat(rng) { b.append(false); } else {
-                        for _ in 0..rng.below(4) { if rng.chance(1, 5) { b.values().append_null(); } else { b.values().append_value(rng.range(-9, 9) as i32); } }
-                        b.append(true);
-                    }
-                }
-                Arc::new(b.finish())
-            }
-            DataType::Struct(fields) => {
-                let a: ArrayRef = Arc::new((0..rows).map(|_| Some(rng.range(0, 99) as i32)).collect::<Int32Array>());
-                let b: ArrayRef = Arc::new((0..rows).map(|_| if nullat(rng) { None } else { Some(format!("t{}", rng.below(7))) }).collect::<StringArray>());
-                let nulls: Vec<bool> = (0..rows).map(|_| !nullat(rng)).collect();
-                Arc::new(StructArray::new(fields.clone(), vec![a, b], Some(arrow::buffer::NullBuffer::from(nulls))))
-            }
-            other => panic!("unsupported {other}"),
-        };
-        cols.push(a);
+fn make_array(rng: &mut Rng, dt: &DataType, rows: usize) -> ArrayRef {
+    let nullat = |rng: &mut Rng| rng.chance(1, 6);
+    match dt {
+        DataType::Int32 => Arc::new((0..rows).map(|_| if nullat(rng) { None } else { Some(rng.range(-1000, 1000) as i32) }).collect::<Int32Array>()),
+        DataType::Float64 => Arc::new((0..rows).map(|_| if nullat(rng) { None } else { Some(rng.range(-1000, 1000) as f64 * 0.25) }).collect::<Float64Array>()),
+        DataType::Boolean => Arc::new((0..rows).map(|_| if nullat(rng) { None } else { Some(rng.chance(1, 2)) }).collect::<BooleanArray>()),
+        DataType::Utf8 => Arc::new((0..rows).map(|_| if nullat(rng) { None } else { Some(format!("s{}", rng.below(50))) }).collect::<StringArray>()),
+        DataType::Utf8View => Arc::new((0..rows).map(|_| if nullat(rng) { None } else if rng.chance(1, 3) { Some(format!("v{}", rng.below(9))) } else { Some(format!("a-long-string-view-value-that-is-out-of-line-{}", rng.below(100000))) }).collect::<StringViewArray>()),
+        DataType::BinaryView => Arc::new((0..rows).map(|_| if nullat(rng) { None } else { Some(vec![rng.below(256) as u8; rng.below(40) as usize]) }).collect::<BinaryViewArray>()),
+        DataType::Dictionary(_, _) => {
+            let s: ArrayRef = Arc::new((0..rows).map(|_| if nullat(rng) { None } else { Some(format!("d{}", rng.below(4))) }).collect::<StringArray>());
+            arrow::compute::cast(&s, dt).unwrap()
+        }
+        DataType::List(f) => {
+            // lengths first, then one child array of the total length
+            let lens: Vec<Option<usize>> = (0..rows).map(|_| if nullat(rng) { None } else { Some(rng.below(4) as usize) }).collect();
+            let total: usize = lens.iter().map(|l| l.unwrap_or(0)).sum();
+            let child = make_array(rng, f.data_type(), total);
+            let mut offsets = vec![0i32];
+            for l in &lens { offsets.push(offsets.last().unwrap() + l.unwrap_or(0) as i32); }
+            let nulls: Vec<bool> = lens.iter().map(|l| l.is_some()).collect();
+            Arc::new(ListArray::new(f.clone(), arrow::buffer::OffsetBuffer::new(offsets.into()), child, Some(arrow::buffer::NullBuffer::from(nulls))))
+        }
+        DataType::Struct(fields) => {
+            let children: Vec<ArrayRef> = fields.iter().map(|f| make_array(rng, f.data_type(), rows)).collect();
+            let nulls: Vec<bool> = (0..rows).map(|_| !nullat(rng)).collect();
+            Arc::new(StructArray::new(fields.clone(), children, Some(arrow::buffer::NullBuffer::from(nulls))))
+        }
+        other => panic!("unsupported {other}"),
     }
+}
+
+fn make_batch(rng: &mut Rng, schema: &SchemaRef, rows: usize) -> RecordBatch {
+    let cols: Vec<ArrayRef> = schema.fields().iter().map(|f| make_array(rng, f.data_type(), rows)).collect();
     RecordBatch::try_new_with_options(schema.clone(), cols, &RecordBatchOptions::new().with_row_count(Some(rows))).unwrap()
 }
 
@@ -160,7 +159,11 @@ fn rt_case(rng: &mut Rng, h: usize, rt: &tokio::runtime::Runtime) {
     let dict = DataType::Dictionary(Box::new(DataType::Int32), Box::new(DataType::Utf8));
     let list = DataType::List(Arc::new(Field::new("item", DataType::Int32, true)));
     let st = DataType::Struct(Fields::from(vec![Field::new("a", DataType::Int32, true), Field::new("b", DataType::Utf8, true)]));
-    let pool = [DataType::Int32, DataType::Float64, DataType::Boolean, DataType::Utf8, DataType::Utf8View, DataType::BinaryView, dict, list, st];
+    // nested types with view children: their buffers are compacted (gc) before spilling
+    let stv = DataType::Struct(Fields::from(vec![Field::new("a", DataType::Int32, true), Field::new("v", DataType::Utf8View, true)]));
+    let lsv = DataType::List(Arc::new(Field::new("item", DataType::Utf8View, true)));
+    let stl = DataType::Struct(Fields::from(vec![Field::new("l", lsv.clone(), true), Field::new("b", DataType::BinaryView, true)]));
+    let pool = [DataType::Int32, DataType::Float64, DataType::Boolean, DataType::Utf8, DataType::Utf8View, DataType::BinaryView, dict, list, st, stv, lsv, stl];
     let ncols = 1 + rng.below(4) as usize;
     let schema: SchemaRef = Arc::new(Schema::new((0..ncols).map(|i| Field::new(format!("c{i}"), rng.pick(&pool).clone(), true)).collect::<Vec<_>>()));
     let comp = *rng.pick(&[SpillCompression::Uncompressed, SpillCompression::Lz4Frame, SpillCompression::Zstd]);
@@ -175,10 +178,11 @@ fn rt_case(rng: &mut Rng, h: usize, rt: &tokio::runtime::Runtime) {
     let nb = rng.below(5) as usize;
     let mut batches: Vec<RecordBatch> = vec![];
     for _ in 0..nb {
-        let rows = *rng.pick(&[0usize, 1, 2, 5, 17, 64]);
+        // 700 rows of out-of-line views exceed the 10 KB threshold above which view buffers are compacted
+        let rows = *rng.pick(&[0usize, 1, 2, 5, 17, 64, 700, 700]);
         let b = make_batch(rng, &schema, rows);
-        // sliced batches
-        let b = if rows > 2 && rng.chance(1, 2) { let off = rng.below(rows as u64 / 2) as usize; b.slice(off, rows - off - rng.below(2) as usize) } else { b };
+        // sliced batches, mostly at a non-zero offset
+        let b = if rows > 2 && rng.chance(2, 3) { let off = rng.below(rows as u64 / 2 + 1) as usize + rng.below(2) as usize; let off = off.min(rows - 1); b.slice(off, rows - off - rng.below(2) as usize) } else { b };
         batches.push(b);
     }
     let desc = format!("schema={:?} comp={:?} limit={limit} batches={:?}", schema.fields().iter().map(|f| f.data_type().to_string()).collect::<Vec<_>>(), comp, batches.iter().map(|b| b.num_rows()).collect::<Vec<_>>());
